@@ -200,7 +200,15 @@ def _run_base(ctx):
 
     # ---------------------------------------------------------------- R20.3
     stops = []
-    for fid in sorted(reach):
+    # methods tornado itself calls on a handler around every request (also for error responses) are entry points too
+    LIFECYCLE = ('prepare', 'on_finish', 'on_connection_close', 'write_error', 'set_default_headers', 'finish', 'send_error', 'data_received')
+    hooks = set()
+    for cid, c_ in repo.classes.items():
+        if cid.split(':')[0] in (SRV,) + (('nbdime.webapp.nb_server_extension',) if ctx.tier == 'thorough' else ()) and cg.is_handler_class(cid):
+            for m_ in c_.body:
+                if isinstance(m_, FuncTypes) and m_.name in LIFECYCLE:
+                    hooks.add(repo.fid_of(m_))
+    for fid in sorted(set(reach) | set(cg.reachable(sorted(hooks))) if hooks else sorted(reach)):
         fn_ = repo.functions[fid]
         for c in calls_in(fn_, nested=False):
             names = [t[1] for t in cg.resolve(c.func, fn_) if t[0] == 'ext']
@@ -214,14 +222,16 @@ def _run_base(ctx):
                 stops.append((fid, c, 'event-loop stop'))
     close = SRV + ':ApiCloseHandler.post'
     repo.func(close)
-    if not any(f == close for f, _, _ in stops):
-        raise AnalysisError('no loop stop found in ApiCloseHandler.post (anchor moved)')
+    if not stops:
+        raise AnalysisError('no loop stop / process exit found in any handler (anchor moved)')
     for fid, c, what in stops:
         if fid != close:
             # sys.exit in argument-parsing helpers reached through the merge-args exemption is start-up style code
-            p = cg.path(handlers_q, fid)
+            p = cg.path(handlers_q, fid) or cg.path(sorted(hooks), fid)
             ctx.inst('R20.3', fid, '%s: %s' % (what, repo.norm(c)), False,
-                     'a request can stop the server outside the gated close handler: %s' % ' -> '.join(p or []), c, extra={'path': p})
+                     'a request can stop the server outside the gated close handler%s: %s' % (
+                         ' (tornado calls this hook after EVERY response of the handler, error responses included, so the closable gate in post() does not protect it)'
+                         if fid in hooks else '', ' -> '.join(p or [fid])), c, extra={'path': p})
             continue
         fn_ = repo.functions[fid]
         g_ = CFG(fn_)
